@@ -24,7 +24,7 @@ func init() {
 		ID:    "C12",
 		Level: "exploration",
 		Rule: "producer: base headers of the supported model with the governed labels 3, 258, 259, 260 preset in either bucket under any Go integer spelling and any type, parsed and raw buckets (raw unprotected bytes holding governed labels), hash algorithms SHA-256/384/512/unknown/0, digest lengths 0..70, optional fields absent/valid/wrongly typed: every envelope returned must satisfy the envelope rules, carry the given values, be accepted by VerifyHashEnvelope with exactly those values, and the caller's maps must be untouched (also on failure). " +
-			"verifier: the complete placement grid {absent, protected, unprotected, both} x value type per governed label (16^4 = 65536 envelopes, each validly signed by the reference signer) plus digest-length, detached-payload and untagged variants: a message is returned iff the reference envelope rules hold. Distinct = (side, placement/type vector class, raw?, outcome).",
+			"verifier: the complete placement grid {absent, protected, unprotected, both} x value type per governed label (about 60 000 envelopes, each validly signed by the reference signer) plus digest-length, detached-payload and untagged variants: a message is returned iff the reference envelope rules hold. Distinct = (side, placement/type vector class, raw?, outcome).",
 		Assume: []string{"envelope rules of DESIGN.md appendix A.5; a label preset by the caller counts as given"},
 		Run:    runC12,
 	})
@@ -213,8 +213,8 @@ func runC12(c *Ctx) {
 	}
 	o3 := mkOpts(map[string]*Node{"uint": refcbor.NInt(50), "tstr": refcbor.NTstr("a/b")})
 	o258 := mkOpts(map[string]*Node{"sha256": refcbor.NInt(-16), "sha384": refcbor.NInt(-43), "unknown": refcbor.NInt(99), "tstr": refcbor.NTstr("SHA-256"), "bstr": refcbor.NBstr([]byte{1}), "null": refcbor.NNull()})
-	o259 := mkOpts(map[string]*Node{"uint": refcbor.NInt(50), "tstr": refcbor.NTstr("text/plain"), "nint": refcbor.NInt(-1), "bstr": refcbor.NBstr([]byte{1}), "null": refcbor.NNull()})
-	o260 := mkOpts(map[string]*Node{"tstr": refcbor.NTstr("loc"), "int": refcbor.NInt(1), "bstr": refcbor.NBstr([]byte("loc")), "null": refcbor.NNull(), "array": refcbor.NArr(refcbor.NTstr("loc"))})
+	o259 := mkOpts(map[string]*Node{"uint": refcbor.NInt(50), "tstr": refcbor.NTstr("text/plain"), "tstr-empty": refcbor.NTstr(""), "nint": refcbor.NInt(-1), "bstr": refcbor.NBstr([]byte{1}), "null": refcbor.NNull()})
+	o260 := mkOpts(map[string]*Node{"tstr": refcbor.NTstr("loc"), "tstr-empty": refcbor.NTstr(""), "int": refcbor.NInt(1), "bstr": refcbor.NBstr([]byte("loc")), "null": refcbor.NNull(), "array": refcbor.NArr(refcbor.NTstr("loc"))})
 	type vcase struct {
 		a, b, cc, d int
 		variant     int
